@@ -1120,7 +1120,20 @@ def _paths(records):
     return parent
 
 
+def has_nar(x):
+    """NaR = [0, 0] inside a spec-computed value: the model's arithmetic left 32 bits there"""
+    if isinstance(x, list):
+        if len(x) == 2 and x[0] == 0 and x[1] == 0 and not isinstance(x[0], bool):
+            return True
+        return any(has_nar(y) for y in x)
+    if isinstance(x, dict):
+        return any(has_nar(y) for y in x.values())
+    return False
+
+
 def _replay_one(t, parent, replayer):
+    if has_nar(t["ret"]) or has_nar(t["post"]) or has_nar(t.get("obs")) or has_nar(t["pre"]):
+        return ["__unknown__"]
     # path from an initial state to t.pre
     path = []
     heap, d, memo = t["pre"], t["d"] - 1, t.get("mpre")
@@ -1189,7 +1202,10 @@ def replay_all(records, replayer, on_fail, *, sample=None, limit=None, nproc=Non
         for t in records:
             fails = _replay_one(t, parent, replayer)
             n += 1
-            if fails:
+            if fails == ["__unknown__"]:
+                replayer.unknown = getattr(replayer, "unknown", 0) + 1
+                n -= 1
+            elif fails:
                 on_fail(t, fails)
             elif sample is not None:
                 sample(t)
@@ -1205,6 +1221,10 @@ def replay_all(records, replayer, on_fail, *, sample=None, limit=None, nproc=Non
         n += k
         for i, fails in out:
             failed.add(i)
+            if fails == ["__unknown__"]:
+                replayer.unknown = getattr(replayer, "unknown", 0) + 1
+                n -= 1
+                continue
             on_fail(records[i], fails)
         if replayer.validator is not None:
             for ev, tag in events:
